@@ -105,12 +105,62 @@ def _attached_list(e: ast.AST) -> Optional[Tuple[str, str]]:
                 if isinstance(g.target, ast.Tuple) and len(g.target.elts) == 2 and isinstance(g.target.elts[1], ast.Name):
                     cond = re.sub(rf"\b{re.escape(g.target.elts[1].id)}\b", "c", cond)     # the controller variable's name is immaterial
                 return _norm_recv(norm(g.iter)), cond
+    # every controller, attached or not: a comprehension over the whole table without a condition
+    for n in ast.walk(e):
+        if isinstance(n, (ast.ListComp, ast.GeneratorExp)) and len(n.generators) == 1 and not n.generators[0].ifs:
+            it = norm(n.generators[0].iter)
+            if it.endswith((".controllers", ".controllers.items()", ".controllers.keys()", ".controllers.values()")):
+                return _norm_recv(it), None
+    if isinstance(e, (ast.Attribute, ast.Call)) and norm(e).endswith((".controllers", ".controllers.items()", ".controllers.keys()", ".controllers.values()")):
+        return _norm_recv(norm(e)), None
+    return None
+
+
+def _carried_list(fn: ast.FunctionDef) -> Optional[str]:
+    """The CVAL loop iterates a local whose value can come out of a container that lives across iterations of the enclosing
+    per-module loop (bound before that loop, read and filled inside it): text of the read.  The list of attached controllers is a
+    fact about one module object at one time; a value remembered from another iteration is some other module's list."""
+    parents: Dict[int, ast.AST] = {}
+    for n in ast.walk(fn):
+        for c in ast.iter_child_nodes(n):
+            parents[id(c)] = n
+    for lp in [n for n in ast.walk(fn) if isinstance(n, ast.For)]:
+        if not (isinstance(lp.iter, ast.Name) and any(isinstance(y, ast.Yield) and isinstance(y.value, ast.Tuple) and y.value.elts
+                                                      and isinstance(y.value.elts[0], ast.Constant) and y.value.elts[0].value == b"CVAL"
+                                                      for y in ast.walk(lp))):
+            continue
+        outer = parents.get(id(lp))
+        while outer is not None and not isinstance(outer, (ast.For, ast.While)):
+            outer = parents.get(id(outer))
+        if outer is None:
+            continue
+        nm = lp.iter.id
+        inside = {id(x) for x in ast.walk(outer)}
+        for a in ast.walk(outer):
+            if not (isinstance(a, ast.Assign) and any(isinstance(t, ast.Name) and t.id == nm for t in a.targets)):
+                continue
+            for x in ast.walk(a.value):
+                box = None
+                if isinstance(x, ast.Call) and isinstance(x.func, ast.Attribute) and x.func.attr in ("get", "setdefault", "pop") and isinstance(x.func.value, ast.Name):
+                    box = x.func.value.id
+                elif isinstance(x, ast.Subscript) and isinstance(x.ctx, ast.Load) and isinstance(x.value, ast.Name):
+                    box = x.value.id
+                if box is None:
+                    continue
+                binds = [b for b in ast.walk(fn) if isinstance(b, ast.Assign) and any(isinstance(t, ast.Name) and t.id == box for t in b.targets)]
+                if binds and all(id(b) not in inside for b in binds) and all(
+                        isinstance(b.value, (ast.Dict, ast.List)) or (isinstance(b.value, ast.Call) and norm(b.value.func).split(".")[-1] in
+                                                                      ("dict", "defaultdict", "OrderedDict", "list", "WeakKeyDictionary"))
+                        for b in binds):
+                    return norm(x)
     return None
 
 
 def tail_descriptor(rows: List[codec.WRow], fn: Optional[ast.FunctionDef] = None) -> Dict[str, Any]:
     from ..packed import subst_locals
     d: Dict[str, Any] = {"order": []}
+    if fn is not None:
+        d["cval_carried"] = _carried_list(fn)
     slot_present = {canon_text("module is not None"), canon_text("not (module is None)"), canon_text("module"),
                     canon_text("self.module is not None"), canon_text("M is not None")}
     slot_empty = {canon_text("module is None"), canon_text("not module"), canon_text("not (module is not None)")}
@@ -181,44 +231,84 @@ def sibling_writers(repo: Repo, rep, P: str):
     pcon, scon = f"{proj.file.rel}:Project.chunks", f"{synth.file.rel}:Synth.chunks"
     rep.func("rv.project.Project.chunks[module tail] ~ rv.synth.Synth.chunks")
     want_order = ["CVAL", "CMID", "CHNK", "SPECIAL", "SEND"]
+    want_list = ("M.controllers.items()", "c.attached(M)")
+    simple_guard = re.compile(r"(not )?M\.\w+( (==|!=|>|<|>=|<=) -?\d+)?")
+
+    def classify(k: str, d: Dict[str, Any]) -> str:
+        """'ok' | 'wrong' (a recognised form that is not the required one) | 'unknown' (not a form this rule reads)."""
+        v = d.get(k)
+        if k == "order":
+            if v == want_order:
+                return "ok"
+            return "wrong" if sorted(v) == sorted(want_order) or (len(v) > len(want_order) and set(v) == set(want_order)) else "unknown"
+        if k in ("cval_fmt", "chnk_fmt"):
+            want = "<i" if k == "cval_fmt" else "<I"
+            return "ok" if v == want else "wrong" if isinstance(v, str) else "unknown"
+        if k == "cval_src":
+            if (v or "").startswith("M.get_raw("):
+                return "ok"
+            return "wrong" if isinstance(v, str) and re.fullmatch(r"(M\.[\w.]+(\(.*\)|\[.*\])?|getattr\(M, .*\))", v) else "unknown"
+        if k == "cval_list":
+            if v == want_list:
+                return "ok"
+            return "wrong" if isinstance(v, tuple) and len(v) == 2 and v[0] in ("M.controllers.items()", "M.controllers", "M.controllers.keys()",
+                                                                                 "M.controllers.values()") else "unknown"
+        if k == "cmid_list":
+            if v is not None and v == d.get("cval_list") and d.get("cmid_join"):
+                return "ok"
+            if v is None or d.get("cval_list") is None or not d.get("cmid_join"):
+                return "unknown"
+            return "wrong"
+        if k == "cmid_elem":
+            if v == "M.controller_midi_maps[name].cmid_data":
+                return "ok"
+            return "wrong" if isinstance(v, str) and re.fullmatch(r"M\.[\w.]+\[name\](\.\w+)*", v) else "unknown"
+        if k == "chnk_src":
+            return "ok" if v == "M.chnk" else "wrong" if isinstance(v, str) and re.fullmatch(r"M\.[\w.]+", v) else "unknown"
+        if k in ("chnk_guard", "special_guard"):
+            if v == ["M.chnk"]:
+                return "ok"
+            if v is None:
+                return "unknown"
+            return "wrong" if all(simple_guard.fullmatch(g) for g in v) else "unknown"
+        return "unknown"
+    keys = ["order", "cval_fmt", "cval_src", "cval_list", "cmid_list", "cmid_elem", "chnk_fmt", "chnk_src", "chnk_guard", "special_guard"]
+    why = {
+        "order": "the {name} module tail must be CVAL*, CMID, CHNK, specialised chunks, SEND",
+        "cval_fmt": "controller values are 32-bit little-endian",
+        "cval_src": "stored controller values must come from get_raw",
+        "cval_list": "one CVAL per ATTACHED controller, in controller order",
+        "cmid_list": "{name} writer: the CMID block must have one 8-byte entry per CVAL, i.e. be joined over the SAME controller list; "
+                     "otherwise bindings shift to other controllers on load",
+        "cmid_elem": "CMID entries must be controller_midi_maps[name].cmid_data",
+        "chnk_fmt": "CHNK and the specialised chunks must be written together, under `if module.chnk`",
+        "chnk_src": "CHNK and the specialised chunks must be written together, under `if module.chnk`",
+        "chnk_guard": "CHNK and the specialised chunks must be written together, under `if module.chnk`",
+        "special_guard": "CHNK and the specialised chunks must be written together, under `if module.chnk`",
+    }
+    verdicts: Dict[str, Dict[str, str]] = {}
     for name, d, con in (("in-project", pd, pcon), ("stand-alone", sd, scon)):
-        if d["order"] != want_order:
-            rep.violation(f"{P}.R2", con, " ".join(d["order"]), f"the {name} module tail must be CVAL*, CMID, CHNK, specialised chunks, SEND",
-                          con.split(":")[0])
-        else:
-            rep.ok(f"{P}.R2", con, " ".join(d["order"]), "tail order")
-        # per-writer invariants
-        if d.get("cval_fmt") != "<i":
-            rep.violation(f"{P}.R2", con, f"CVAL format {d.get('cval_fmt')}", "controller values are 32-bit little-endian", con.split(":")[0])
-        if not (d.get("cval_src") or "").startswith("M.get_raw("):
-            rep.violation(f"{P}.R2", con, f"CVAL from {d.get('cval_src')}", "stored controller values must come from get_raw", con.split(":")[0])
-        else:
-            rep.ok(f"{P}.R2", con, f"CVAL {d.get('cval_fmt')} from {d.get('cval_src')}")
-        want_list = ("M.controllers.items()", "c.attached(M)")
-        if d.get("cval_list") != want_list:
-            rep.violation(f"{P}.R2", con, f"CVAL iterates {d.get('cval_list')}",
-                          "one CVAL per ATTACHED controller, in controller order", con.split(":")[0])
-        if d.get("cmid_list") != d.get("cval_list") or not d.get("cmid_join"):
-            rep.violation(f"{P}.R2", con, f"CMID joins {d.get('cmid_list')} / CVAL iterates {d.get('cval_list')}",
-                          f"{name} writer: the CMID block must have one 8-byte entry per CVAL, i.e. be joined over the SAME "
-                          "controller list; otherwise bindings shift to other controllers on load", con.split(":")[0])
-        else:
-            rep.ok(f"{P}.R2", con, f"CMID joined over the CVAL list {d.get('cmid_list')}")
+        vd = verdicts[name] = {k: classify(k, d) for k in keys}
+        for k in keys:
+            shown = f"{k}: {d.get(k)}" + (f" / CVAL iterates {d.get('cval_list')}" if k == "cmid_list" else "")
+            if vd[k] == "ok":
+                rep.ok(f"{P}.R2", con, shown[:160], "module tail: required form")
+            elif vd[k] == "wrong":
+                rep.violation(f"{P}.R2", con, shown[:200], why[k].format(name=name), con.split(":")[0])
+            else:
+                rep.inconclusive(f"{P}.R2", con, shown[:200], f"module tail: {k} is not of a form this rule reads", con.split(":")[0])
+        if d.get("cval_carried"):
+            rep.violation(f"{P}.R2", con, f"CVAL list read from {d.get('cval_carried')}",
+                          f"{name} writer: the list of controllers to store can come from a container that is kept across the modules of the loop "
+                          f"({d.get('cval_carried')}): attachment is a fact about one module object, so another module's list decides which "
+                          "values are written", con.split(":")[0])
         if d.get("cmid_filter"):
             rep.violation(f"{P}.R2", con, f"CMID entries filtered by {d.get('cmid_filter')}",
                           f"{name} writer: CMID entries are positional (entry i belongs to the i-th stored controller); skipping an entry "
                           "shifts every later binding to an earlier controller on load", con.split(":")[0])
-        if d.get("cmid_elem") != "M.controller_midi_maps[name].cmid_data":
-            rep.violation(f"{P}.R2", con, f"CMID element {d.get('cmid_elem')}", "CMID entries must be controller_midi_maps[name].cmid_data",
-                          con.split(":")[0])
-        if d.get("chnk_fmt") != "<I" or d.get("chnk_src") != "M.chnk" or d.get("chnk_guard") != ["M.chnk"] or d.get("special_guard") != ["M.chnk"]:
-            rep.violation(f"{P}.R2", con, f"CHNK {d.get('chnk_fmt')} from {d.get('chnk_src')} if {d.get('chnk_guard')}; specialised if {d.get('special_guard')}",
-                          "CHNK and the specialised chunks must be written together, under `if module.chnk`", con.split(":")[0])
-        else:
-            rep.ok(f"{P}.R2", con, "if M.chnk: CHNK <I M.chnk; specialised chunks")
-    # the two siblings agree
-    keys = ["order", "cval_fmt", "cval_src", "cval_list", "cmid_list", "cmid_elem", "chnk_fmt", "chnk_src", "chnk_guard", "special_guard"]
-    diffs = [(k, pd.get(k), sd.get(k)) for k in keys if pd.get(k) != sd.get(k)]
+    # the two siblings agree (on what was read on both sides; an unread side is reported above)
+    diffs = [(k, pd.get(k), sd.get(k)) for k in keys if pd.get(k) != sd.get(k)
+             and "unknown" not in (verdicts["in-project"][k], verdicts["stand-alone"][k])]
     if diffs:
         k, a, b = diffs[0]
         rep.violation(f"{P}.R2", scon, f"{k}: in-project {a} / stand-alone {b}",
@@ -450,6 +540,27 @@ def cmid_reader_rule(repo: Repo, rep, P: str, rule: str):
     lp = loops[0]
     it = _resolve(lp.iter, fdefs)
     offset_mode = False
+    if isinstance(it, ast.Call) and norm(it.func) == "zip" and len(it.args) == 2 and isinstance(lp.target, ast.Tuple) and len(lp.target.elts) == 2:
+        # the offsets may be written first: zip(range(0, n, 8), names) is the same pairing as zip(names, range(0, n, 8))
+        def _is_offsets(a):
+            return isinstance(a, ast.Call) and norm(a.func) in ("range", "count", "itertools.count")
+        if _is_offsets(it.args[0]) and not _is_offsets(it.args[1]):
+            import copy as _copy
+            it = ast.copy_location(ast.Call(func=it.func, args=[it.args[1], it.args[0]], keywords=[]), it)
+            lp = _copy.copy(lp)
+            lp.target = ast.copy_location(ast.Tuple(elts=[lp.target.elts[1], lp.target.elts[0]], ctx=ast.Store()), lp.target)
+        # islice(<controllers>, len(data) // 8): the names of the complete records only — pairing stops there, as it does
+        # when the offsets stop before a partial record
+        a0 = it.args[0]
+        if isinstance(a0, ast.Call) and norm(a0.func) in ("islice", "itertools.islice") and len(a0.args) == 2 and data:
+            bound = a0.args[1]
+            if isinstance(bound, ast.BinOp) and isinstance(bound.op, ast.FloorDiv) and norm(bound.left) == f"len({data[0]})":
+                try:
+                    bsz = repo.fold(bound.right, ci=mod)
+                except Exception:
+                    bsz = None
+                if bsz == 8:
+                    it = ast.copy_location(ast.Call(func=it.func, args=[a0.args[0], it.args[1]], keywords=[]), it)
     if isinstance(it, ast.Call) and norm(it.func) == "zip" and len(it.args) == 2 and isinstance(lp.target, ast.Tuple) and len(lp.target.elts) == 2 \
             and isinstance(it.args[1], ast.Call) and norm(it.args[1].func) in ("count", "itertools.count") and data:
         # for name, offset in zip(<controllers>, count(0, 8)): one offset per controller, 8 apart
@@ -684,7 +795,10 @@ def chnm_pairing(repo: Repo, rep, P: str):
             try:
                 k = class_const(repo, ci, "options_chnm")
                 tgt, _ = chnm.reader_target(repo, ci, k)
-                if tgt != "options":
+                if tgt is None or (tgt or "").startswith("?"):
+                    rep.inconclusive(f"{P}.R3", construct, f"options_chnm = {k}",
+                                     f"what {ci.name}.load_chunk does with chunk {k} was not followed ({tgt})", rel)
+                elif tgt != "options":
                     rep.violation(f"{P}.R3", construct, f"options_chnm = {k}",
                                   f"{ci.name}.load_chunk does not hand chunk {k} to load_options", rel)
             except (AnchorMissing, NotConst):
@@ -844,6 +958,8 @@ def _array_decoder(repo: Repo, arr: ClassInfo, sb: ast.FunctionDef) -> Tuple[str
     start, stop, step = (zero, r[0], one) if len(r) == 1 else (r[0], r[1], one) if len(r) == 2 else (r[0], r[1], r[2])
     # the unpack call and its slice
     unp = [c for c in ast.walk(lp) if isinstance(c, ast.Call) and norm(c.func) in ("unpack", "struct.unpack") and len(c.args) == 2]
+    if len({norm(u) for u in unp}) == 1:
+        unp = unp[:1]              # one decode written out at each of its uses (a helper read through as an expression)
     if len(unp) != 1:
         return "?", f"{len(unp)} unpack calls in the loop"
     ldefs = packed.single_defs(ast.Module(body=lp.body, type_ignores=[]))
@@ -1157,33 +1273,17 @@ def clone_rule(repo: Repo, rep, P: str):
     fn = repo.own_method(mod, "clone")
     rel = mod.file.rel
     stmts = [norm(s) for s in stmts_of(fn)]
-    want = ["synth = Synth(self)", "f = io.BytesIO()", "synth.write_to(f)", "f.seek(0)", "synth2 = read_sunvox_file(f)", "return synth2.module"]
-    idx = []
-    for w in want:
-        idx.append(next((i for i, s in enumerate(stmts) if s == w), -1))
-    if all(i >= 0 for i in idx) and idx == sorted(idx):
-        rep.ok(f"{P}.R6", f"{rel}:Module.clone", "; ".join(want), "clone = Synth(self) saved and loaded")
+    from .. import bufstate
+    verdict, val, events = bufstate.clone_verdict(repo, mod, "clone")
+    if verdict == "ok" and val == bufstate.Part("Synth(self)", "module"):
+        rep.ok(f"{P}.R6", f"{rel}:Module.clone", "; ".join(events)[:200], "clone = Synth(self) saved, rewound and loaded; the loaded synth's module is returned")
+    elif verdict == "wrong" or verdict == "ok":
+        why = val.reason if verdict == "wrong" else f"clone returns {val}, not the module of the synth read back"
+        rep.violation(f"{P}.R6", f"{rel}:Module.clone", "; ".join(stmts)[:200],
+                      "Module.clone must write Synth(self) and return the module of the synth read back: " + why, f"{rel}:{fn.lineno}")
     else:
-        # accept variable renames: structural check
-        calls = [norm(c) for c in walk_no_nested(fn) if isinstance(c, ast.Call)]
-        ok = any(c.startswith("Synth(self)") for c in calls) and any(".write_to(" in c for c in calls) \
-            and any(c.endswith(".seek(0)") for c in calls) and any(c.startswith("read_sunvox_file(") for c in calls)
-        rets = [norm(s.value) for s in walk_no_nested(fn) if isinstance(s, ast.Return) and s.value is not None]
-        # Synth(self).clone().module: the container's own save-and-load (Synth inherits it), then the module of the result
-        from ..packed import single_defs, resolve_names
-        from . import c01 as _c01
-        synth_k = repo.cls("Synth", module="rv.synth")
-        r_clone = repo.lookup(synth_k, "clone")
-        rv = [resolve_names(s.value, single_defs(fn)) for s in walk_no_nested(fn) if isinstance(s, ast.Return) and s.value is not None]
-        via_container = len(rv) == 1 and isinstance(rv[0], ast.Attribute) and rv[0].attr == "module" and isinstance(rv[0].value, ast.Call) \
-            and norm(rv[0].value) == "Synth(self).clone()" and r_clone is not None and r_clone[0].name == "Container" and r_clone[1] == "method"
-        if ok and rets and rets[0].endswith(".module") and not rets[0].startswith("self"):
-            rep.ok(f"{P}.R6", f"{rel}:Module.clone", "; ".join(stmts), "clone = Synth(self) saved and loaded")
-        elif via_container and _c01.container_clone_ok(repo)[0]:
-            rep.ok(f"{P}.R6", f"{rel}:Module.clone", "; ".join(stmts), "clone = Synth(self).clone().module; Container.clone is write_to, seek(0), read_sunvox_file")
-        else:
-            rep.violation(f"{P}.R6", f"{rel}:Module.clone", "; ".join(stmts)[:200],
-                          "Module.clone must write Synth(self) and return the module of the synth read back", f"{rel}:{fn.lineno}")
+        rep.inconclusive(f"{P}.R6", f"{rel}:Module.clone", "; ".join(stmts)[:200] + " | " + "; ".join(events)[:200],
+                         "Module.clone is not of a recognised save-and-load shape", f"{rel}:{fn.lineno}")
     # the synth reader installs the module it read
     ssr = repo.cls("SunSynthReader", module="rv.readers.sunsynth")
     from ..packed import single_defs, resolve_names
@@ -1247,6 +1347,10 @@ def drawn_waveforms(repo: Repo, rep, P: str):
         verdict, detail = "?", "no store into drawn_waveform.samples"
         if not stores:
             verdict = "nostore"
+            handed = [c for c in ast.walk(fn) if isinstance(c, ast.Call) and any(isinstance(x, ast.Name) and x.id == cparam for a in list(c.args) + [k.value for k in c.keywords]
+                                                                                   for x in ast.walk(a))]
+            if handed:
+                verdict, detail = "?", f"the chunk is handed to {norm(handed[0].func)}, which is not read through"
         for st_ in stores[-1:]:
             v = st_.value
             if isinstance(v, ast.Call) and norm(v.func) == "list" and len(v.args) == 1:
